@@ -186,7 +186,7 @@ class C07(Check):
             'ordered pair of nested real-fault kinds incl. the undecoded one, sampler windows x flag sets, launch window) x word '
             'sets {junk, failing END, zeros, all-ones, small} (quick: junk, fail, zeros) x every subset of the window dropped '
             '(<=2^9), every single duplication, every insertion of one undecoded/unrelated record at every position, lone '
-            'NONE/ALL, windows with 3 and 6 lookups with every dropped prefix; every enum member in the zero-omission window. '
+            'NONE/ALL, windows with 3 and 6 lookups with every dropped prefix; every enum member in the zero-omission window (thorough: the whole fault enumeration for 4 different members of every enum-valued word). '
             'Oracle: feed_generator consumes the history and str() of every emitted trace returns. non-trivial = at least one '
             'event of the window was dropped, duplicated or inserted. Distinct by construction.')
     assumptions = ('"individually in-domain" is decided by the frozen table, not by the decoder under test',
@@ -213,11 +213,12 @@ class C07(Check):
                 for ws in self.wordsets():
                     if ws == 'ones' and name in D.TEXT_DECODERS:
                         continue
-                    for label, win in windows(name, ws, 1):
-                        for how, evs in variants(label, win):
-                            self._one(acc, name, (ws, label) + how, evs, nontrivial=len(evs) != len(win) or how[0] != 'subset')
-                    for how, evs in lone(name, ws, 1):
-                        self._one(acc, name, (ws,) + how, evs, nontrivial=True)
+                    for pick in ((1,) if self.tier == 'quick' else (0, 1, 2, -1)):
+                        for label, win in windows(name, ws, pick):
+                            for how, evs in variants(label, win):
+                                self._one(acc, name, (ws, label, pick) + how, evs, nontrivial=len(evs) != len(win) or how[0] != 'subset')
+                        for how, evs in lone(name, ws, pick):
+                            self._one(acc, name, (ws, pick) + how, evs, nontrivial=True)
                 # every member of every enum-valued word, complete window
                 nmax = max([len(s['values']) for sh in ('se', 'single') for s in D.enums(name, sh).values()] +
                            ([len(D.IOCTL_REQUESTS)] if name == 'BSC_ioctl' else []) + [0])
